@@ -80,8 +80,47 @@ def detect(mid, props, tier='quick'):
     return out
 
 
+def reverify(mid):
+    """seeded/<mid> against the CURRENT /repo HEAD in a scratch worktree: patch applies, the
+    unedited suite passes with it, the demo fails with it and passes without it"""
+    d = '%s/seeded/%s' % (V, mid)
+    wt = '/tmp/mut/rv-' + mid
+    sh('git -C /repo worktree remove --force %s; rm -rf %s' % (wt, wt))
+    a = sh('mkdir -p /tmp/mut && git -C /repo worktree add -q --detach %s HEAD' % wt)
+    r = {'head': sh('git -C /repo log --format=%h -1').stdout.strip()}
+    try:
+        if os.path.exists(d + '/demo.py'):
+            os.makedirs(wt + '/out', exist_ok=True)
+            shutil.copy(d + '/demo.py', wt + '/out/demo.py')
+            d0 = sh('cd %s && /venv/bin/python out/demo.py' % wt, timeout=900)
+            r['demo_without'] = d0.returncode
+        a = sh('git -C %s apply %s/patch.diff' % (wt, d))
+        r['applies'] = a.returncode == 0
+        if r['applies']:
+            t = sh(SUITE.format(wt=wt).replace(' -x', ''))
+            r['suite_tail'] = t.stdout.strip().splitlines()[-1:]
+            r['suite_pass'] = ' passed' in t.stdout and 'failed' not in t.stdout and 'error' not in t.stdout.lower()
+            if os.path.exists(d + '/demo.py'):
+                d1 = sh('cd %s && /venv/bin/python out/demo.py' % wt, timeout=900)
+                r['demo_with'] = d1.returncode
+                r['demo_msg'] = (d1.stdout + d1.stderr).strip()[-200:]
+        r['ok'] = bool(r.get('applies') and r.get('suite_pass') and
+                       (not os.path.exists(d + '/demo.py') or
+                        (r.get('demo_with') != 0 and r.get('demo_without') == 0)))
+    finally:
+        sh('git -C /repo worktree remove --force %s; rm -rf %s' % (wt, wt))
+    json.dump(r, open(d + '/verify.json', 'w'), indent=1)
+    print(mid, r.get('ok'), {k: v for k, v in r.items() if k not in ('demo_msg',)}, flush=True)
+    return r
+
+
 if __name__ == '__main__':
     cmd = sys.argv[1]
+    if cmd == 'reverify':
+        from concurrent.futures import ThreadPoolExecutor
+        with ThreadPoolExecutor(int(os.environ.get('RVJOBS', '6'))) as ex:
+            list(ex.map(reverify, sys.argv[2:]))
+        sys.exit(0)
     if cmd == 'collect':
         for pid in sys.argv[2:]:
             collect(pid)
